@@ -548,6 +548,9 @@ class Body:
                     t = self._simp_vfield(t)
                 elif t[0] == 'agg' and e['f'] < len(t[3]) and t[1] in ('tuple',):
                     t = t[3][e['f']]
+                elif t[0] == 'agg' and e['f'] < len(t[3]) and "{closure" in str(t[1]):
+                    # a capture read through the environment of a closure whose body was inlined where it is called
+                    t = t[3][e['f']]
                 elif t[0] == 'agg' and e['f'] < len(t[3]) and self.prog.adts.get(strip_generics(str(t[1])), {}).get("kind") == "struct" \
                         and len(t[3]) == len(self.prog.adts[strip_generics(str(t[1]))]["variants"][0]["fields"]):
                     # a field of a crate-local struct that was just built (e.g. the value returned by an inlined helper)
@@ -627,6 +630,21 @@ class Body:
                     continue
                 if d[0] == 'call' and canon(d[1]).endswith("FromResidual::from_residual"):
                     continue        # builds a failure: never the selected (success) variant
+                if d[0] == 'call' and len(d[2]) == 2 and canon(d[1]).split("::")[-2:] in (["Result", "map"], ["Option", "map"]) and deep_strip(d[2][1])[0] == 'fn':
+                    # `x.map(Ctor)`: a success of x wrapped by a constructor used as a function (Some, Ok, a tuple struct)
+                    inner, ctor = deep_strip(d[2][0]), str(deep_strip(d[2][1])[1])
+                    last = ctor.split("::")[-1]
+                    if k == 'ok' and idx == 0:
+                        if last in ("Some", "Ok", "Err"):
+                            wrapped = ('agg', "std::option::Option" if last == "Some" else "std::result::Result", last, (('ok', inner),))
+                        elif strip_generics(ctor) in self.prog.adts:
+                            wrapped = ('agg', strip_generics(ctor), last, (('ok', inner),))
+                        else:
+                            wrapped = ('call', ctor, (('ok', inner),), ())
+                        out.append((pos, wrapped))
+                    elif k == 'vfield' and t[2] in ('Err',):
+                        out.append((pos, ('vfield', inner, 'Err', t[3])))
+                    continue
                 if d[0] == 'call':
                     # a definition by a fallible call: if it is the selected variant, the value is that call's payload
                     out.append((pos, ('ok', d) if k == 'ok' else ('vfield', d, t[2], t[3])))
@@ -733,7 +751,7 @@ class Body:
                 l = ds[0][2]["op"]["pl"]["l"]
             else:
                 break
-        if self.ok_def(l) is None and not all(deep_strip(dt)[0] == 'agg' for _p, dt in self.var_defs(l)):
+        if self.ok_def(l) is None and not all(deep_strip(dt)[0] in ('agg', 'call') for _p, dt in self.var_defs(l)):
             return None
         alts = []
         for pos, dt in self.var_defs(l):
@@ -748,6 +766,12 @@ class Body:
                     alts.extend(sub)
                 else:
                     alts.append((pos, dt))
+            elif dt[0] == 'call':
+                # defined by a fallible call (possibly `x.map(Ctor)`): its failure, if any, is forwarded unchanged
+                x = dt
+                while x[0] == 'call' and len(x[2]) == 2 and canon(x[1]).endswith("Result::map"):
+                    x = deep_strip(x[2][0])
+                alts.append((pos, ('agg', 'std::result::Result', 'Err', (('vfield', x, 'Err', 0),))))
             else:
                 return None
         return alts
